@@ -268,6 +268,13 @@ impl TypeChecker {
                     );
                 };
 
+                // Constants and context values cannot be assigned to
+                if path_value.kind != ValueKind::Local {
+                    return Err(
+                        self.error_cannot_assign_to_this_expression(p)
+                    );
+                }
+
                 let ty = path_value.final_type();
                 let ctx = ctx.with_type(ty);
                 let diverges = self.expr(scope, &ctx, e)?;
@@ -286,6 +293,13 @@ impl TypeChecker {
                         self.error_cannot_assign_to_this_expression(&c.path)
                     );
                 };
+
+                // Constants and context values cannot be assigned to
+                if path_value.kind != ValueKind::Local {
+                    return Err(
+                        self.error_cannot_assign_to_this_expression(&c.path)
+                    );
+                }
 
                 let ty = path_value.final_type();
                 let ctx = ctx.with_type(ty);
